@@ -84,6 +84,59 @@ def register(generators, gm):
             raise GenError("is_bright: not a bool")
         return [v for v, t in rows if t == "true"]
 
+    def cansi_table_text(body, ansi):
+        """the 16 arms + `None => None` read off the text `match color { Some(Color::X) => Some(AColor::Ansi(AnsiColor::Y)), .. }`:
+        (table, None), or (None, why) when the body is not that text"""
+        mm = re.fullmatch(r"matchcolor\{(.*)\}", squash(body))
+        if not mm:
+            return None, "cansi_to_anstyle_color: not a single `match color`"
+        tab = {}
+        saw_none = False
+        for arm in [a for a in mm.group(1).split(",") if a]:
+            m = re.fullmatch(r"Some\(Color::(\w+)\)=>Some\(AColor::Ansi\(AnsiColor::(\w+)\)\)", arm)
+            if m:
+                if m.group(1) not in CANSI_COLORS or m.group(2) not in ansi:
+                    raise GenError("cansi_to_anstyle_color: unknown colour in arm %r" % arm)
+                if m.group(1) in tab:
+                    raise GenError("cansi_to_anstyle_color: duplicate arm %r" % arm)
+                tab[m.group(1)] = ansi[m.group(2)]
+            elif arm == "None=>None":
+                saw_none = True
+            else:
+                return None, "cansi_to_anstyle_color: arm not recognised: %r" % arm
+        if set(tab) != set(CANSI_COLORS) or not saw_none:
+            return None, "cansi_to_anstyle_color: arms do not cover the 16 cansi colours and None"
+        return tab, None
+
+    def cansi_table_by_evaluation(src, ansi, why):
+        """The 16 pairs (cansi colour, AnsiColor) are DATA of the hand model (rf_cansi_color_tab).  When the function is no longer
+        the 17-arm text (`color?`, an enum-to-enum match wrapped once, `color.map(..)`, a helper, or-patterns ..) and RoffFn still
+        translates the crate, the table is the graph of the function over Some(cansi::Color::<the 16 constants>) and None, computed
+        by evaluating it (tools/rs_eval.py; cansi's enum is third party: its variants are CANSI_COLORS).  Every value must still
+        have the form of an arm: `Some(anstyle::Color::Ansi(anstyle::AnsiColor::Y))`, and None must go to None.  Sound whatever
+        is computed: Proofs/RoffGen.v proves the translated function equal to the hand model over this table."""
+        fn_takes_over(why)
+        import rs_eval
+        enum_src = "pub enum Color { %s }" % ", ".join(CANSI_COLORS)
+        try:
+            rows = rs_eval.graph(src, "cansi_to_anstyle_color", "cansi::Color", enum_src, CANSI_COLORS, "styled_str.rs",
+                                 wrap=("Some",), extra=(("None", ("ctor", "None", [])),))
+        except rs_eval.EvalError as e:
+            raise GenError("%s (and the table cannot be computed from the function: %s)" % (why, e))
+        tab = {}
+        for v, t in rows:
+            if v == "None":
+                if t != "None":
+                    raise GenError("cansi_to_anstyle_color: None is taken to %s" % t)
+                continue
+            m = re.fullmatch(r"Some\(anstyle::Color::Ansi\(anstyle::AnsiColor::(\w+)\)\)", t)
+            if not m or m.group(1) not in ansi:
+                raise GenError("cansi_to_anstyle_color: Some(Color::%s) is taken to %s: not a 16-colour value" % (v, t))
+            tab[v] = ansi[m.group(1)]
+        if set(tab) != set(CANSI_COLORS):
+            raise GenError("cansi_to_anstyle_color: the 16 cansi colours are not covered")
+        return tab
+
     def gen_roff():
         ansi = ansi_colors()
         bits = effect_bits()
@@ -103,26 +156,9 @@ def register(generators, gm):
                          r"style=style\.effects\(effects\);Self\{text:category\.text,style,?\}", sq):
             raise GenError("styled_str.rs: From<CategorisedSlice> body not recognised")
         # colour table
-        body = gm.fn_body(ss, "cansi_to_anstyle_color")
-        mm = re.fullmatch(r"matchcolor\{(.*)\}", squash(body))
-        if not mm:
-            raise GenError("cansi_to_anstyle_color: not a single `match color`")
-        tab = {}
-        saw_none = False
-        for arm in [a for a in mm.group(1).split(",") if a]:
-            m = re.fullmatch(r"Some\(Color::(\w+)\)=>Some\(AColor::Ansi\(AnsiColor::(\w+)\)\)", arm)
-            if m:
-                if m.group(1) not in CANSI_COLORS or m.group(2) not in ansi:
-                    raise GenError("cansi_to_anstyle_color: unknown colour in arm %r" % arm)
-                if m.group(1) in tab:
-                    raise GenError("cansi_to_anstyle_color: duplicate arm %r" % arm)
-                tab[m.group(1)] = ansi[m.group(2)]
-            elif arm == "None=>None":
-                saw_none = True
-            else:
-                raise GenError("cansi_to_anstyle_color: arm not recognised: %r" % arm)
-        if set(tab) != set(CANSI_COLORS) or not saw_none:
-            raise GenError("cansi_to_anstyle_color: arms do not cover the 16 cansi colours and None")
+        tab, why = cansi_table_text(gm.fn_body(ss, "cansi_to_anstyle_color"), ansi)
+        if tab is None:
+            tab = cansi_table_by_evaluation(ss, ansi, why)
         # effects
         if squash(gm.fn_body(ss, "is_bold")) != "matches!(intensity,Some(Intensity::Bold))":
             raise GenError("is_bold: body not recognised")
